@@ -178,14 +178,8 @@ def pieceStr : Piece → String
   | .text cs => String.ofList (cs.map Char.ofNat)
   | .qnh raw => toString (Float32.toFloat (if raw == 0 then (0.0 : Float32) else (800.0 : Float32) + Float32.ofNat (raw - 1) * 0.8))
   | .heading raw => toString (Float32.toFloat (Float32.ofNat raw * 180.0 / 256.0))
-  | .trackCeil v =>
-    let ew := Float.ofInt v.vEw; let ns := Float.ofInt v.vNs
-    let h := Float.atan2 ew ns * (360.0 / (2.0 * pi64'))
-    let h := if h < 0.0 then h + 360.0 else h
-    toString (Float.ceil h.toFloat32.toFloat)
-  | .speedFloor v =>
-    let ew := Float.ofInt v.vEw; let ns := Float.ofInt v.vNs
-    toString (Float.floor (Float.sqrt (ew * ew + ns * ns)))
+  | .trackCeil v => toString (Float.ceil (headingG floatTrack v).toFloat32.toFloat)
+  | .speedFloor v => toString (Float.floor (speedG floatTrack v))
 
 def lineStr (l : Line) : String := String.join (l.map pieceStr)
 
